@@ -88,9 +88,24 @@ class Run(object):
         t_heal = w.clock.now
         calm = 0
         n = 0
+        # per client: did it ever empty its socket during the healed period, how far behind the server's newest datagram is
+        # it, did any acknowledgement still arrive in time (see receiver_livelock below)
+        self.backlog_trace = trace = {id(c): {"min_backlog": None, "lags": [], "acked": []} for c in clients}
         while w.clock.now - t_heal < horizon:
             w.step()
             n += 1
+            for c in clients:
+                tr = trace[id(c)]
+                b = len(c.sock.fifo)
+                if w.clock.now - t_heal > 2.0:
+                    tr["min_backlog"] = b if tr["min_backlog"] is None else min(tr["min_backlog"], b)
+                if n % 30 == 0:
+                    sc, cc = self.sconn(c), c.udp.conn
+                    if sc is not None and cc is not None:
+                        from mon.models.ring import ring_diff
+                        period = w.dt / max(1, getattr(c, "updates_per_step", 1))
+                        tr["lags"].append((w.clock.now - t_heal, ring_diff(int(sc.seq_sending), int(cc.bitfield_pkt.current_seqnum)) * period, sc.outgoing_timeout))
+                        tr["acked"].append((w.clock.now - t_heal, sc.stats.acked, cc.stats.acked))
             if all(self.quiescent(c) for c in clients):
                 calm += 1
                 if calm >= min_ticks:
@@ -201,7 +216,7 @@ def final_checks(run, clients, healed_for, horizon=HORIZON):
                 c.inc("guaranteed_delivered")
             elif alive and healed_for is None:
                 # horizon reached without quiescence, still undelivered
-                rep("C05", classify_stuck(run, rec), "guaranteed message %r (%d bytes, api %s, from %s) undelivered %.0fs after the network healed; %s" % (
+                rep("C05", "client-reads-one-datagram-per-update-livelock" if receiver_livelock(run, rec, clients) else classify_stuck(run, rec), "guaranteed message %r (%d bytes, api %s, from %s) undelivered %.0fs after the network healed; %s" % (
                     pid, rec["len"], rec["api"], rec["side"], horizon, where_stuck(run, rec)), {"len": rec["len"], "api": rec["api"], "mtu": run.mtu})
             elif alive:
                 rep("C05", classify_stuck(run, rec), "guaranteed message %r (%d bytes, api %s, from %s) never delivered although the sender is quiescent; %s" % (
@@ -220,7 +235,7 @@ def final_checks(run, clients, healed_for, horizon=HORIZON):
             elif n == 0 and alive and healed_for is None:
                 if rec.get("nmsgs") and classify_stuck(run, rec) == "never-leaves-send-queue":
                     # not a question of acks or timing: a part of the message sits in the send queue and never reached the wire
-                    rep("C07", "callback-never-fired-message-never-sent", "callback of a %s send (%d bytes) never fired %.0fs after the network healed: %s" % (
+                    rep("C07", "client-reads-one-datagram-per-update-livelock" if receiver_livelock(run, rec, clients) else "callback-never-fired-message-never-sent", "callback of a %s send (%d bytes) never fired %.0fs after the network healed: %s" % (
                         "guaranteed" if guaranteed else "retry-none", rec["len"], horizon, where_stuck(run, rec)), {"len": rec["len"], "retry": rec["retry"]})
                 else:
                     c.inc("callbacks_unresolved_not_quiescent")
@@ -263,6 +278,25 @@ def final_checks(run, clients, healed_for, horizon=HORIZON):
                         missing, rec["nmsgs"], rec["len"]), {"len": rec["len"]})
             else:
                 c.inc("conservation_checked")
+
+
+def receiver_livelock(run, rec, clients):
+    """known mechanism (finding F3): UdpClient.update() reads ONE datagram per call.  Once a burst (a stalled link that flushes)
+    leaves the client's socket with a backlog worth more than the server's message timeout, and the server keeps sending one
+    datagram per client frame, the client never catches up: every acknowledgement it reads is older than the timeout, both
+    ends resolve every datagram as timed out, retransmissions take precedence over fresh messages and the send queues grow for
+    ever.  Signature, from the trace of the healed period: the client's socket was NEVER empty, its read lag was at least 90 %
+    of the server's message timeout at every sample, and neither end saw a single datagram acknowledged in the second half."""
+    tr = None
+    for c in clients:
+        if rec["conn"] is c.udp.conn or rec["conn"] is run.sconn(c):
+            tr = getattr(run, "backlog_trace", {}).get(id(c))
+    if not tr or not tr["min_backlog"] or len(tr["lags"]) < 10:
+        return False
+    if any(lag < 0.9 * timeout for t, lag, timeout in tr["lags"] if t > 3.0):
+        return False
+    half = [a for a in tr["acked"] if a[0] >= tr["acked"][-1][0] / 2]
+    return len(half) >= 2 and half[0][1:] == half[-1][1:]
 
 
 def where_stuck(run, rec):
